@@ -377,7 +377,10 @@ def dynmock_stage(ctx, cases, gate=True):
 def run(ctx):
     if ctx.prop == "C15":
         run_c15(ctx)
-        return dynmock_stage(ctx, 200_000 if ctx.tier == "quick" else 4_000_000)
+        dynmock_stage(ctx, 200_000 if ctx.tier == "quick" else 4_000_000)
+        # provided methods of a user trait that format `self` through Display / Debug supertraits (mock-core)
+        from . import engine_c20
+        return engine_c20.family_stage(ctx, "supertrait", 2000 if ctx.tier == "quick" else 100_000)
     if ctx.prop == "C16":
         run_c16(ctx)
         return dynmock_stage(ctx, 200_000 if ctx.tier == "quick" else 4_000_000)
